@@ -29,6 +29,7 @@ import (
 // ---- the block tree (built once with the chainx builder) ----------------------
 
 type tree struct {
+	plain   bool // built (and imported) without the staking module: blocks without txs have no receipts
 	blocks  map[string]*types.Block
 	invalid map[string]string // name -> why
 	names   map[common.Hash]string
@@ -38,12 +39,14 @@ type tree struct {
 }
 
 var (
-	treeOnce sync.Once
-	theTree  *tree
+	treeOnce  sync.Once
+	theTree   *tree
+	plainTree *tree
 )
 
 func buildTree(r *mc.Run) *tree {
 	treeOnce.Do(func() {
+		plainTree = buildPlainTree(r)
 		cfg := chainx.DefaultCfg
 		cfg.MaxRewardsPeriod = 1000
 		chainx.SetParams(cfg)
@@ -113,11 +116,81 @@ func buildTree(r *mc.Run) *tree {
 		h.ParentHash[0] ^= 1
 		add("U4", t.blocks["M4"].WithSeal(h)) // unknown parent
 		t.invalid["U4"] = "unknown parent"
+		h = m3.Header()
+		h.Bloom[5] ^= 0x10
+		add("L3", m3.WithSeal(h)) // wrong logs bloom
+		t.invalid["L3"] = "wrong bloom"
+		h = m3.Header()
+		h.ReceiptHash[0] ^= 1
+		add("H3", m3.WithSeal(h)) // wrong receipt root
+		t.invalid["H3"] = "wrong receipt root"
+		h = t.blocks["M4"].Header()
+		h.GasUsed++
+		add("Q4", t.blocks["M4"].WithSeal(h)) // wrong gas used
+		t.invalid["Q4"] = "wrong gas used"
 		t.next = map[string]string{"M1": "M2", "M2": "M3", "M3": "M4", "M4": "M5", "F2": "F3", "F3": "F4", "F4": "F5", "F5": "F6", "G3": "G4"}
-		t.menu = []string{"M1", "M2", "M3", "M4", "M1-M2", "M2-M3", "M3-M4", "M1-M4", "F2", "F3", "F2-F3", "F4-F5", "F2-F5", "G3", "R3", "S3", "T3", "U4", "M2-R3", "F2-T3"}
+		t.menu = []string{"M1", "M2", "M3", "M4", "M1-M2", "M2-M3", "M3-M4", "M1-M4", "F2", "F3", "F2-F3", "F4-F5", "F2-F5", "G3", "R3", "S3", "T3", "U4", "L3", "H3", "Q4", "M2-R3", "F2-T3"}
 		theTree = t
 	})
 	return theTree
+}
+
+// buildPlainTree: the same genesis, NO staking module (the configuration of the repository's own core tests):
+// a block without transactions executes to zero receipts.  M1 xfer, M2 EMPTY, M3 xfer, M4 (recovery only);
+// fork F2 (empty); invalid variants of the EMPTY block M2: junk bloom, wrong receipt root, wrong gas used,
+// wrong state root.
+func buildPlainTree(r *mc.Run) *tree {
+	cfg := chainx.DefaultCfg
+	cfg.MaxRewardsPeriod = 1000
+	chainx.SetParams(cfg)
+	f := chainx.Fix()
+	t := &tree{plain: true, blocks: map[string]*types.Block{}, invalid: map[string]string{}, names: map[common.Hash]string{}, next: map[string]string{}}
+	add := func(name string, b *types.Block) {
+		t.blocks[name] = b
+		t.names[b.Hash()] = name
+		t.txs = append(t.txs, b.Transactions()...)
+	}
+	build := func(n *chainx.Node, name, op string) {
+		h := &chainx.Hist{F: f, R: r, Node: n}
+		b, err := h.BuildOnly(op)
+		if err != nil {
+			panic(err)
+		}
+		add(name, b)
+	}
+	a := chainx.NewPlainNode(f)
+	build(a, "M1", "c1:xfer")
+	fk := a.Fork()
+	build(a, "M2", "c1:")
+	build(a, "M3", "c1:xfer")
+	build(a, "M4", "c1:")
+	build(fk, "F2", "s1:")
+	build(fk, "F3", "s1:xfer")
+	a.Close()
+	fk.Close()
+	m2 := t.blocks["M2"]
+	if len(m2.Transactions()) != 0 || m2.ReceiptHash() != types.EmptyRootHash {
+		panic("harness: plain tree's M2 is expected to have no receipts")
+	}
+	h := m2.Header()
+	h.Bloom[7] ^= 0x21
+	add("L2", m2.WithSeal(h))
+	t.invalid["L2"] = "wrong bloom on a block without receipts"
+	h = m2.Header()
+	h.ReceiptHash[0] ^= 1
+	add("H2", m2.WithSeal(h))
+	t.invalid["H2"] = "wrong receipt root on a block without receipts"
+	h = m2.Header()
+	h.GasUsed = 21000
+	add("Q2", m2.WithSeal(h))
+	t.invalid["Q2"] = "wrong gas used on a block without receipts"
+	h = m2.Header()
+	h.Root[0] ^= 1
+	add("R2", m2.WithSeal(h))
+	t.invalid["R2"] = "wrong state root"
+	t.next = map[string]string{"M1": "M2", "M2": "M3", "M3": "M4", "F2": "F3"}
+	t.menu = []string{"M1", "M2", "M3", "M1-M3", "F2", "L2", "H2", "Q2", "R2", "M1-L2"}
+	return t
 }
 
 func (t *tree) segment(op string) (names []string) {
@@ -151,7 +224,9 @@ type node struct {
 	poisoned bool
 }
 
-func open(db *mc.CrashDB) (*node, error) {
+func open(db *mc.CrashDB) (*node, error) { return openOpt(db, false) }
+
+func openOpt(db *mc.CrashDB, plain bool) (*node, error) {
 	eng := chainx.NewStubUcon()
 	mux := new(event.TypeMux)
 	bc, err := core.NewBlockChain(db, eng, mux, params.ArchiveNode, local.FakeDetailDB())
@@ -159,7 +234,9 @@ func open(db *mc.CrashDB) (*node, error) {
 		return nil, err
 	}
 	st := staking.NewStaking(nil)
-	st.Register(bc.Processor())
+	if !plain {
+		st.Register(bc.Processor())
+	}
 	if err := st.Start(bc, eng); err != nil {
 		return nil, err
 	}
@@ -206,7 +283,7 @@ func (s *Sys) Reset() {
 	if s.n != nil {
 		s.n.close()
 	}
-	n, err := open(freshDB())
+	n, err := openOpt(freshDB(), s.t.plain)
 	if err != nil {
 		panic(err)
 	}
@@ -382,7 +459,7 @@ func (s *Sys) crashPoints(op string, l0, l1 int) {
 		further = types.Blocks{s.t.blocks[nx]}
 	}
 	// reference: the node that never crashed, after the same recovery imports
-	ref, err := open(s.n.db.Snapshot())
+	ref, err := openOpt(s.n.db.Snapshot(), s.t.plain)
 	if err != nil {
 		s.fail("reopen of a cleanly written database fails", err.Error())
 		return
@@ -398,7 +475,7 @@ func (s *Sys) crashPoints(op string, l0, l1 int) {
 		frozen := s.n.db.At(i)
 		var n *node
 		var oerr error
-		if m, where := mc.CatchStack(func() { n, oerr = open(frozen) }); m != "" {
+		if m, where := mc.CatchStack(func() { n, oerr = openOpt(frozen, s.t.plain) }); m != "" {
 			s.fail(fmt.Sprintf("restart panics at %s", where), fmt.Sprintf("crash after write %d of [%d,%d) of %s: %s", i, l0, l1, op, m))
 			continue
 		}
@@ -506,6 +583,13 @@ func Run(r *mc.Run) {
 	f := func() mc.System { return &Sys{r: r, t: t, crash: true} }
 	r.BFS(f, mc.SeqOpts{Name: "import-tree", Depth: depth, MaxStates: maxStates})
 	r.ConfirmSeq("import-tree", f)
+	fp := func() mc.System { return &Sys{r: r, t: plainTree, crash: true} }
+	pd := 3
+	if !r.Quick() {
+		pd = 5
+	}
+	r.BFS(fp, mc.SeqOpts{Name: "import-tree-plain", Depth: pd, MaxStates: maxStates})
+	r.ConfirmSeq("import-tree-plain", fp)
 	r.Evaluations = *r.Counter("crash_points") + r.Transitions
 	r.Assume("crash model: single Put/Delete and batch writes are atomic and the log is prefix-closed (LevelDB semantics)")
 	r.Assume("the cryptographic seal is replaced by a flag (C01 covers the real verifier); the stub engine reproduces ucon's structural header outcomes so that the Ucon-only side-chain paths run")
@@ -514,6 +598,9 @@ func Run(r *mc.Run) {
 
 func Replay(r *mc.Run, v *mc.Violation) {
 	t := buildTree(r)
+	if v.System == "import-tree-plain" {
+		t = plainTree
+	}
 	obs, viols, err := mc.ReplaySeq(&Sys{r: r, t: t, crash: true}, v.Ops)
 	fmt.Println("obs:", obs, "err:", err)
 	for _, x := range viols {
